@@ -112,6 +112,9 @@ pub fn gres<F: FnOnce() -> Value>(f: F) -> Value {
 }
 
 pub fn silence_panics() {
+    if std::env::var("RVH_SHOW_PANICS").is_ok() {
+        return; // debugging aid: keep the default hook
+    }
     panic::set_hook(Box::new(|_| {}));
 }
 
